@@ -27,8 +27,15 @@ pub fn run() {
         // attachments of the target message: senders whose receivers we keep, to see that they are released
         let mut kept = Vec::new();
         let mut atts = Vec::new();
+        // own=1: the program keeps a handle of its own on every attached channel: whatever happens to the copy inside the interrupted
+        // message, that handle goes on working until it is dropped
+        let own = a.get("own").map(|s| s == "1").unwrap_or(false);
+        let mut own_tx = Vec::new();
         for _ in 0..natt {
             let (s, r) = platform::channel().unwrap();
+            if own {
+                own_tx.push(s.clone());
+            }
             atts.push(OsIpcChannel::Sender(s));
             kept.push(r);
         }
@@ -233,6 +240,13 @@ pub fn run() {
         };
         // attachments of the target message must have been released if the message was not delivered,
         // i.e. the kept receivers see disconnection (nobody holds their sender any more)
+        let mut own_state = Vec::new();
+        for (i, s) in own_tx.iter().enumerate() {
+            let sent = s.send(&[0x4F, 0x57, 0x4E], vec![], vec![]).is_ok();
+            let got = matches!(kept[i].try_recv(), Ok((ref d, _, _)) if d[..] == [0x4F, 0x57, 0x4E]);
+            own_state.push((sent, got));
+        }
+        drop(own_tx);
         let mut att_state = Vec::new();
         for r in kept.iter() {
             att_state.push(match r.try_recv() {
@@ -248,7 +262,7 @@ pub fn run() {
             "{}",
             json!({"kind":"crash","id":id,"len":len,"k":k,"survivor":survivor,"natt":natt,"nreg":nreg,"observe":observe,"killed":killed,
                    "fds_before":fds_before,"fds_after":fds_after,"maps_before":maps_before,"maps_after":maps_after,
-                   "survivor_sent":sent_s,"log":log,"after":after,"hang":hang,"att_state":att_state,"survivor_probe":survivor_probe})
+                   "survivor_sent":sent_s,"own_state":own_state,"log":log,"after":after,"hang":hang,"att_state":att_state,"survivor_probe":survivor_probe})
         );
     }
 }
